@@ -1,4 +1,4 @@
-//go:build !noopt
+//go:build !no_dil_sample_vec
 
 package main
 
